@@ -25,7 +25,7 @@ Good(ev) ==
          [] ev.fn = "put"       -> out = Put(tree, ev.k, ev.v)
          [] ev.fn = "round"     -> out = Prune(tree)
          [] ev.fn = "cleanflat" -> out = CleanFlat(flat, reg)
-         [] ev.fn = "cleanhier" -> CleanHierOK(tree, reg, out)
+         [] ev.fn = "cleanhier" -> out = CleanHier(tree, reg)
          [] OTHER -> FALSE
 
 Bad == {i \in 1..Len(Trace) : ~Good(Trace[i])}
